@@ -359,5 +359,6 @@ func runC11(r *Report, rng *rand.Rand, thorough bool) {
 	}
 	ccases.WriteTo(r)
 	lcases.WriteTo(r)
-	r.Rule = "function level: value lists over an adversarial alphabet (empty, whitespace, case / punctuation variants, leading digits, keywords, predeclared names, quotes, backslashes, tabs, newlines, non-ASCII, duplicates) through SanitizeEnumNames vs the model; end to end: string and integer enums in six positions (component, property, parameter, array item, request body, response) x {default, always-prefix-enum-values, old-enum-conflicts}, generated, parsed; every constant of the enum's type read back (strconv.Unquote of the emitted literal) and compared with the specification's values (exactly one constant per distinct value), names pairwise distinct in the file; non-trivial = at least two distinct values"
+	runC11Cross(r, rng, thorough)
+	r.Rule = "cross-enum: 2-4 top-level string enums and 0-2 other types over a small alphabet of type names and values (values meeting across enums, meeting prefixed names, type names and the own type name; three fixed shapes) x always-prefix, generated; which enums were prefixed vs the model of the conflict pass in Coq, all constant names distinct (oracle); function level: value lists over an adversarial alphabet (empty, whitespace, case / punctuation variants, leading digits, keywords, predeclared names, quotes, backslashes, tabs, newlines, non-ASCII, duplicates) through SanitizeEnumNames vs the model; end to end: string and integer enums in six positions (component, property, parameter, array item, request body, response) x {default, always-prefix-enum-values, old-enum-conflicts}, generated, parsed; every constant of the enum's type read back (strconv.Unquote of the emitted literal) and compared with the specification's values (exactly one constant per distinct value), names pairwise distinct in the file; non-trivial = at least two distinct values"
 }
